@@ -217,6 +217,29 @@ Theorem C08_inner_encoding_is_compact : forall fmt_float,
 Proof. exact inner_n_ok. Qed.
 Print Assumptions C08_inner_encoding_is_compact.
 
+(* The full statement with the inner Any encoding being the encoder itself on the payload message
+   (resolver reg and proto.Unmarshal abstract, Any values nested to depth n): no premise about
+   any_inner and none about any message is left — only the strconv float text law and the structural
+   condition oneofs_flat on the environments (decided per run). *)
+Theorem C08_full_statement_inner_encoder : forall fmt_float,
+  float_text_ok fmt_float -> forall reg unmarshal,
+  (forall tn e root, reg tn = Some (e, root) -> oneofs_flat e) ->
+  forall n env root m txt, oneofs_flat env ->
+    encode fmt_float (inner_n fmt_float reg unmarshal n) env root m = Ok txt ->
+    exists J, strict_parse txt = Some J /\ wire_format fmt_float env root m J.
+Proof. exact encode_wellformed_inner. Qed.
+Print Assumptions C08_full_statement_inner_encoder.
+(* ... and the "value" member of an Any whose payload is stored as proto bytes is the J5 JSON of the
+   payload message: the inner text reads as a tree satisfying the wire format of the payload type *)
+Theorem C08_any_value_is_payload_wire_format : forall fmt_float,
+  float_text_ok fmt_float -> forall reg unmarshal,
+  (forall tn e root, reg tn = Some (e, root) -> oneofs_flat e) ->
+  forall n tn pb t, inner_n fmt_float reg unmarshal n tn pb = Ok t ->
+    exists e root pm J, reg tn = Some (e, root) /\ unmarshal tn pb = Some pm /\
+      strict_parse t = Some J /\ wire_format fmt_float e root pm J.
+Proof. exact inner_n_wire. Qed.
+Print Assumptions C08_any_value_is_payload_wire_format.
+
 (* The specification leaves no freedom inside the documented domain: for a value whose scalars are
    all in-domain and whose Any values store JSON text, at most one tree satisfies the wire format —
    so "the encoder's output satisfies wire_format" pins the output completely. *)
